@@ -81,6 +81,26 @@ class Uninit(object):
     pass
 
 
+class V4(object):
+    """a vector of four field elements (lanes A, B, C, D) of one of the vector field types"""
+    __slots__ = ('kind', 'l')
+
+    def __init__(self, kind, lanes):
+        self.kind = kind
+        self.l = lanes      # 4 Val (sort fe)
+
+
+class EnumV(object):
+    __slots__ = ('enum', 'variant')
+
+    def __init__(self, enum, variant):
+        self.enum = enum
+        self.variant = variant
+
+
+LANE_NAMES = 'ABCD'
+
+
 UNIT = Tup([])
 
 
@@ -132,6 +152,11 @@ class AlgCtx(object):
         self._file_env = {}
         self._imports = {}
         self.extra_items = []       # nested items (struct / impl) made visible by the root selector
+        # vector (parallel formulas) support; empty for the serial modules
+        self.vec_kinds = {}         # vector field type name -> 'unreduced' | 'reduced'
+        self.vec_enums = {}         # 'Shuffle' / 'Lanes' -> list of variants (from the backend's field.rs)
+        self.vec_const = None       # callable(name) -> (struct type name, [A, B, C, D] lane values mod p)
+        self.ext_consts = []        # extension entries of the constant table ('u32:<n>' / 'int:<n>')
 
     def file_env(self, f):
         env = self._file_env.get(f.relname)
@@ -189,7 +214,7 @@ class AlgCtx(object):
 
 class AlgSpec(object):
     def __init__(self, name, fn, container=None, trait=None, trait_arg=None, self_ref=None, nested_in=None,
-                 closure=False, note=None, expect=None):
+                 closure=False, note=None, expect=None, loop_once=False, same_as=None):
         self.name = name
         self.fn = fn
         self.container = container      # impl self type / mod name / None (file level)
@@ -200,6 +225,8 @@ class AlgSpec(object):
         self.closure = closure          # select the typed closure inside fn
         self.note = note
         self.expect = expect
+        self.loop_once = loop_once      # translate one iteration of the (only) run-time loop
+        self.same_as = same_as
 
 
 class AlgTranslator(object):
@@ -241,6 +268,8 @@ class AlgTranslator(object):
             return Val(self.b.new_input('fe', name))
         if n == 'Choice':
             return Val(self.b.new_input('ch', name))
+        if n in self.c.vec_kinds:
+            return V4(n, [Val(self.b.new_input('fe', '%s.%s' % (name, LANE_NAMES[i]))) for i in range(4)])
         if n is not None and depth < 4:
             st = self.c.find_struct(n)
             if st is not None and self.is_field_level(st, env, 0):
@@ -264,7 +293,7 @@ class AlgTranslator(object):
             except ParseError:
                 return False
             n = self.type_name(fty, env)
-            if n in (FE_TYPE, 'Choice'):
+            if n in (FE_TYPE, 'Choice') or n in self.c.vec_kinds:
                 continue
             sub = self.c.find_struct(n) if n else None
             if sub is None or not self.is_field_level(sub, env, depth + 1):
@@ -283,7 +312,12 @@ class AlgTranslator(object):
             for x, tt in zip(v.el, t[2]):
                 self.check_type(x, tt, env, line)
             return
-        if n == FE_TYPE:
+        if n in self.c.vec_kinds:
+            if not (isinstance(v, V4) and v.kind == n):
+                raise TransErr('expected a %s' % n, line)
+        elif isinstance(v, V4):
+            raise TransErr('vector value where type %s is expected' % (n,), line)
+        elif n == FE_TYPE:
             if not (isinstance(v, Val) and v.sort == 'fe'):
                 raise TransErr('expected a FieldElement', line)
         elif n == 'Choice' or n == 'bool':
@@ -305,6 +339,10 @@ class AlgTranslator(object):
 
     def const(self, path, line):
         i = self.c.const_index.get(path)
+        if i is None and (path.startswith('u32:') or path.startswith('int:')):
+            if path not in self.c.ext_consts:
+                self.c.ext_consts.append(path)
+            i = ('ext', path)
         if i is None:
             raise TransErr('`%s` is not a known field constant' % path, line)
         if path not in self.consts_used:
@@ -316,6 +354,135 @@ class AlgTranslator(object):
             return Struct(v.name, dict((k, self.copy_val(x)) for k, x in v.f.items()))
         if isinstance(v, Tup):
             return Tup([self.copy_val(x) for x in v.el])
+        if isinstance(v, V4):
+            return self.vec_copy(v)
+        return v
+
+    def vec_copy(self, v):
+        return V4(v.kind, list(v.l))
+
+    def vec_zero(self, kind, ln):
+        return V4(kind, [self.const('FieldElement::ZERO', ln) for _ in range(4)])
+
+    def vec_const(self, name, sname, kind, vals, rows, ln):
+        self.note('constants::%s: lane values %r (mod p) computed from its limb literals' % (name, vals))
+        return Struct(sname, {'0': V4(kind, [self.int_const(x, ln) for x in vals])})
+
+    def vec_neg(self, v, ln):
+        return V4(v.kind, [self.op('neg', [x], 'fe') for x in v.l])
+
+    def vec_binop(self, op, a, b, ln):
+        if isinstance(b, V4):
+            if op == '+' and a.kind == b.kind:
+                return V4(a.kind, [self.op('add', [x, y], 'fe') for x, y in zip(a.l, b.l)])
+            if op == '-' and a.kind == b.kind:
+                return V4(a.kind, [self.op('sub', [x, y], 'fe') for x, y in zip(a.l, b.l)])
+            if op == '*' and a.kind == b.kind:
+                return V4(self.unreduced_kind(a.kind), [self.op('mul', [x, y], 'fe') for x, y in zip(a.l, b.l)])
+        if op == '*' and isinstance(b, Tup) and len(b.el) == 4 and all(isinstance(x, IntC) for x in b.el):
+            ks = [self.int_const(x.n, ln) for x in b.el]
+            for x in b.el:
+                if not 0 <= x.n < 2 ** 32:
+                    raise TransErr('scalar constant does not fit u32', ln)
+            return V4(self.unreduced_kind(a.kind), [self.op('mul', [x, k], 'fe') for x, k in zip(a.l, ks)])
+        raise TransErr('operator %s on vector field values of these types' % op, ln)
+
+    # -- vector field API at value level ---------------------------------------------------------
+    def int_const(self, n, line):
+        n %= (2 ** 255 - 19)
+        if n == 0:
+            return self.const('FieldElement::ZERO', line)
+        if n == 1:
+            return self.const('FieldElement::ONE', line)
+        return self.const(('u32:%d' % n) if n < 2 ** 32 else ('int:%d' % n), line)
+
+    def lanes_of(self, which, enum, line):
+        if not isinstance(which, EnumV) or which.enum != enum:
+            raise TransErr('expected a constant %s::<variant>' % enum, line)
+        name = which.variant
+        if enum == 'Shuffle':
+            if len(name) != 4 or any(ch not in LANE_NAMES for ch in name):
+                raise TransErr('shuffle pattern %s is not of the form XYZW' % name, line)
+            return [LANE_NAMES.index(ch) for ch in name]
+        if not name or any(ch not in LANE_NAMES for ch in name):
+            raise TransErr('lane set %s is not a subset of ABCD' % name, line)
+        return [LANE_NAMES.index(ch) for ch in name]
+
+    def v4_method(self, recv, name, args, e, env, ln):
+        k = recv.kind
+        if name == 'shuffle':
+            if len(args) != 1:
+                raise TransErr('shuffle expects one argument', ln)
+            idx = self.lanes_of(args[0], 'Shuffle', ln)
+            return V4(k, [recv.l[i] for i in idx])
+        if name == 'blend':
+            if len(args) != 2 or not isinstance(args[0], V4) or args[0].kind != k:
+                raise TransErr('blend expects (same vector type, Lanes)', ln)
+            take = self.lanes_of(args[1], 'Lanes', ln)
+            return V4(k, [args[0].l[i] if i in take else recv.l[i] for i in range(4)])
+        if name in ('negate_lazy',) and not args:
+            return V4(k, [self.op('neg', [x], 'fe') for x in recv.l])
+        if name == 'diff_sum' and not args:
+            a, b, c, d = recv.l
+            return V4(k, [self.op('sub', [b, a], 'fe'), self.op('add', [a, b], 'fe'),
+                          self.op('sub', [d, c], 'fe'), self.op('add', [c, d], 'fe')])
+        if name == 'square' and not args:
+            return V4(self.unreduced_kind(k), [self.op('square', [x], 'fe') for x in recv.l])
+        if name == 'square_and_negate_D' and not args:
+            sq = [self.op('square', [x], 'fe') for x in recv.l]
+            sq[3] = self.op('neg', [sq[3]], 'fe')
+            return V4(k, sq)
+        if name == 'reduce' and not args:
+            return V4(k, list(recv.l))
+        if name == 'split' and not args:
+            return Tup(list(recv.l))
+        if name == 'into' and not args:
+            return ('into', recv)
+        if name == 'conditional_assign':
+            if len(args) != 2 or not isinstance(args[0], V4) or args[0].kind != k:
+                raise TransErr('conditional_assign expects (same vector type, Choice)', ln)
+            c = self.need(args[1], 'ch', ln, 'conditional_assign')
+            pl = self.place(e[2], env)
+            pl.set(V4(k, [self.op('csel', [c, x, y], 'fe') for x, y in zip(recv.l, args[0].l)]))
+            return UNIT
+        raise TransErr('vector field method %s is outside the value-level API known to the translator' % name, ln)
+
+    def unreduced_kind(self, k):
+        # F51x4Reduced::square / mul give F51x4Unreduced; the AVX2 type has a single kind
+        for n, r in self.c.vec_kinds.items():
+            if r == 'unreduced':
+                return n
+        return k
+
+    def v4_static(self, kind, fn, args, ln):
+        if fn == 'new':
+            if len(args) != 4:
+                raise TransErr('%s::new expects 4 arguments' % kind, ln)
+            return V4(kind, [self.need(a, 'fe', ln, 'new') for a in args])
+        if fn == 'splat':
+            if len(args) != 1:
+                raise TransErr('splat expects one argument', ln)
+            x = self.need(args[0], 'fe', ln, 'splat')
+            return V4(kind, [x, x, x, x])
+        if fn == 'from':
+            if len(args) != 1 or not isinstance(args[0], V4):
+                raise TransErr('%s::from of a non-vector value' % kind, ln)
+            return V4(kind, list(args[0].l))
+        if fn == 'conditional_select':
+            if len(args) != 3 or not isinstance(args[0], V4) or not isinstance(args[1], V4) \
+                    or args[0].kind != kind or args[1].kind != kind:
+                raise TransErr('conditional_select expects (vector, vector, Choice)', ln)
+            c = self.need(args[2], 'ch', ln, 'conditional_select')
+            return V4(kind, [self.op('csel', [c, x, y], 'fe') for x, y in zip(args[0].l, args[1].l)])
+        raise TransErr('%s::%s is outside the value-level API known to the translator' % (kind, fn), ln)
+
+    def resolve_into(self, v, ty, env, ln):
+        """`.into()` between the reduced / unreduced vector types, fixed by the expected type"""
+        if isinstance(v, tuple) and len(v) == 2 and v[0] == 'into':
+            n = self.type_name(ty, env) if ty is not None else None
+            if n not in self.c.vec_kinds:
+                raise TransErr('`.into()` whose target is not a vector field type', ln)
+            return V4(n, list(v[1].l))
         return v
 
     # -- evaluation ----------------------------------------------------------------------------
@@ -382,6 +549,18 @@ class AlgTranslator(object):
             a, b = segs
             if a == 'Self':
                 a = env.get_self_ty()
+            if a in self.c.vec_enums:
+                if b not in self.c.vec_enums[a]:
+                    raise TransErr('unknown variant %s::%s' % (a, b), ln)
+                return EnumV(a, b)
+            if a in self.c.vec_kinds and b == 'ZERO':
+                return self.vec_zero(a, ln)
+            if a == 'constants' and self.c.vec_const is not None:
+                r = self.c.vec_const(b)
+                if r is None:
+                    raise TransErr('constants::%s is not a known vector constant' % b, ln)
+                sname, kind, vals, rows = r
+                return self.vec_const(b, sname, kind, vals, rows, ln)
             if a == FE_TYPE or a == 'constants':
                 return self.const('%s::%s' % (a, b), ln)
         raise TransErr('unsupported path %s' % '::'.join(segs), ln)
@@ -404,6 +583,8 @@ class AlgTranslator(object):
         idx = self.eval(e[3], env)
         if isinstance(base, Bytes) and isinstance(idx, (IntC, Bytes)):
             return Bytes(merge_deps(base, idx))
+        if isinstance(base, Tup) and isinstance(idx, IntC) and idx.n < len(base.el):
+            return base.el[idx.n]
         raise TransErr('indexing a field-level / unsupported value', e[1])
 
     def ev_struct(self, e, env):
@@ -437,6 +618,8 @@ class AlgTranslator(object):
                 return self.op('neg', [v], 'fe')
             if isinstance(v, Struct):
                 return self.dispatch(v, 'Neg', 'neg', None, [], ln)
+            if isinstance(v, V4):
+                return self.vec_neg(v, ln)
         if e[2] == '!':
             if isinstance(v, Val) and v.sort == 'ch':
                 return self.op('cnot', [v], 'ch')
@@ -449,6 +632,13 @@ class AlgTranslator(object):
     _OP_TRAITS = {'+': ('Add', 'add'), '-': ('Sub', 'sub'), '*': ('Mul', 'mul')}
 
     def binop(self, op, a, b, ln):
+        if isinstance(a, V4):
+            return self.vec_binop(op, a, b, ln)
+        if isinstance(a, IntC) and isinstance(b, IntC) and op in ('+', '-', '*'):
+            r = {'+': a.n + b.n, '-': a.n - b.n, '*': a.n * b.n}[op]
+            if r < 0:
+                raise TransErr('negative integer constant', ln)
+            return IntC(r)
         if isinstance(a, Val) and isinstance(b, Val):
             if a.sort == 'fe' and b.sort == 'fe':
                 if op in self._FE_BIN:
@@ -531,8 +721,11 @@ class AlgTranslator(object):
                 pl.set(Bytes(merge_deps(cur, rhs)))
                 return UNIT
             if not isinstance(cur, Uninit):
+                if isinstance(cur, V4):
+                    rhs = self.resolve_into(rhs, ('tpath', ln, [cur.kind], []), env, ln)
                 if type(cur) is not type(rhs) or (isinstance(cur, Val) and cur.sort != rhs.sort) \
-                        or (isinstance(cur, Struct) and cur.name != rhs.name):
+                        or (isinstance(cur, Struct) and cur.name != rhs.name) \
+                        or (isinstance(cur, V4) and cur.kind != rhs.kind):
                     raise TransErr('assignment changes the kind of value', ln)
             pl.set(self.copy_val(rhs))
             return UNIT
@@ -586,6 +779,7 @@ class AlgTranslator(object):
         if len(args) != len(decl.params):
             raise TransErr('call of %s with %d arguments, expected %d' % (decl.name, len(args), len(decl.params)), ln)
         for (pat, ty), a in zip(decl.params, args):
+            a = self.resolve_into(a, ty, env, ln)
             self.check_type(a, ty, env, ln)
             if ty[0] == 'tref' and ty[2]:
                 v = a
@@ -601,6 +795,7 @@ class AlgTranslator(object):
         finally:
             self.depth -= 1
         if decl.ret is not None:
+            r = self.resolve_into(r, decl.ret, env, ln)
             self.check_type(r, decl.ret, env, ln)
         return r
 
@@ -637,7 +832,9 @@ class AlgTranslator(object):
                         raise TransErr('tuple struct %s: wrong number of fields' % name, ln)
                     fields = {}
                     for (fname, (a, b)), v in zip(fs, args):
-                        self.check_type(v, rsparse.parse_type_range(st.toks, a, b, st.fname), env, ln)
+                        fty = rsparse.parse_type_range(st.toks, a, b, st.fname)
+                        v = self.resolve_into(v, fty, env, ln)
+                        self.check_type(v, fty, env, ln)
                         fields[fname] = self.copy_val(v)
                     return Struct(name, fields)
                 if all(isinstance(v, (Bytes, IntC)) for v in args):
@@ -662,6 +859,8 @@ class AlgTranslator(object):
                     y = self.need(args[1], 'fe', ln, 'conditional_select')
                     c = self.need(args[2], 'ch', ln, 'conditional_select')
                     return self.op('csel', [c, x, y], 'fe')
+            if a in self.c.vec_kinds:
+                return self.v4_static(a, b, args, ln)
             if a == 'Choice' and b == 'from':
                 if len(args) != 1 or not isinstance(args[0], (Bytes, IntC)) or merge_deps(args[0]):
                     raise TransErr('Choice::from of a value that depends on field-level values', ln)
@@ -712,6 +911,10 @@ class AlgTranslator(object):
             raise TransErr('generic method call', ln)
         recv = self.eval(e[2], env)
         args = [self.eval(x, env) for x in e[4]]
+        if isinstance(recv, V4):
+            return self.v4_method(recv, name, args, e, env, ln)
+        if isinstance(recv, tuple) and len(recv) == 2 and recv[0] == 'into':
+            raise TransErr('method call on an untyped `.into()` value', ln)
         if isinstance(recv, Val) and recv.sort == 'fe':
             if name in ('square', 'square2', 'is_negative', 'is_zero', 'as_bytes', 'to_bytes') and args:
                 raise TransErr('%s takes no arguments' % name, ln)
@@ -818,7 +1021,7 @@ class AlgTranslator(object):
                     raise TransErr('let without initializer', ln)
                 env.vars[pat[2]] = Uninit()
                 return
-            v = self.copy_val(self.eval(init, env))
+            v = self.copy_val(self.resolve_into(self.eval(init, env), ty, env, ln))
             if ty is not None:
                 self.check_type(v, ty, env, ln)
             self.bind_pat(pat, v, env)
@@ -867,6 +1070,22 @@ class AlgTranslator(object):
                 return UNIT
         raise TransErr('`if` on a run-time condition is outside the supported subset', ln)
 
+    def ev_for(self, e, env):
+        _, ln, pat, it, body = e
+        r = self.eval(it, env)
+        if not (isinstance(r, Bytes) and not r.deps):
+            raise TransErr('for loop over an unsupported iterator', ln)
+        if not self.spec.loop_once or self.depth != 1 or getattr(self, 'loop_done', False):
+            raise TransErr('loop with a run-time trip count is outside the supported subset', ln)
+        if pat[0] != 'pwild':
+            raise TransErr('loop over a run-time range uses its index', ln)
+        if self.b.stmts:
+            raise TransErr('code before the loop emits statements', ln)
+        self.loop_done = True
+        self.note('one iteration of the `for` loop at line %d (trip count not modelled); loop state = the inputs' % ln)
+        self.eval_block(body, Env(env))
+        return UNIT
+
     def ev_macro(self, e, env):
         raise TransErr('macro %s! is outside the supported subset' % e[2], e[1])
 
@@ -882,6 +1101,10 @@ class AlgTranslator(object):
             if isinstance(v, Val):
                 outs.append(v.v)
                 names.append(path)
+            elif isinstance(v, V4):
+                for i, x in enumerate(v.l):
+                    outs.append(x.v)
+                    names.append('%s.%s' % (path, LANE_NAMES[i]) if path else LANE_NAMES[i])
             elif isinstance(v, Struct):
                 for k in v.f:
                     flat(v.f[k], '%s.%s' % (path, k) if path else k)
